@@ -38,6 +38,21 @@ func files(groups ...[]string) []string {
 }
 
 func allChecks() []*Check {
+	cs := allChecksRaw()
+	for _, c := range cs {
+		if c.ID == "C11" {
+			for i := range c.Quick {
+				c.Quick[i].Confirm = "VerifC11Stress"
+			}
+			for i := range c.Thorough {
+				c.Thorough[i].Confirm = "VerifC11Stress"
+			}
+		}
+	}
+	return cs
+}
+
+func allChecksRaw() []*Check {
 	return []*Check{
 		{
 			ID:    "C01",
@@ -241,8 +256,10 @@ func allChecks() []*Check {
 				{Name: "C10.n2.lifo-lastsel", Pkg: "gtree", Entry: "VerifC10", N: 2, FSModel: true, Sched: "lifo-lastsel", Expect: []string{"C10.err/text", "C10.same/text", "C10.noleak", "C10.end"}},
 				{Name: "C10.units", Pkg: "gtree", Entry: "VerifC10Units", N: 0, FSModel: true, RealParse: true, Expect: []string{"C10.err.units/same-unit", "C10.err.units/mixed-units"}},
 				gjf("C10.exists", "VerifC10Exists", 0, "C10.exists.simple", "C10.exists.err", "C10.exists.fs/partial"),
+				gjf("C10.reuse.n2", "VerifC10Reuse", 2, "C10.reuse.simple", "C10.reuse.err", "C10.reuse.same", "C10.reuse.end"),
 			},
 			Thorough: []Job{
+				gjf("C10.reuse.n3", "VerifC10Reuse", 3, "C10.reuse.simple", "C10.reuse.err", "C10.reuse.same", "C10.reuse.end"),
 				gjf("C10.n4.fifo", "VerifC10", 4, "C10.err/text", "C10.same/text", "C10.same/json", "C10.same/dryrun", "C10.same/walk", "C10.same/mkdir", "C10.same/verify", "C10.noleak", "C10.end"),
 				{Name: "C10.n3.lifo", Pkg: "gtree", Entry: "VerifC10", N: 3, FSModel: true, Sched: "lifo", Expect: []string{"C10.same/text", "C10.noleak", "C10.end"}},
 				{Name: "C10.n3.fifo-lastsel", Pkg: "gtree", Entry: "VerifC10", N: 3, FSModel: true, Sched: "fifo-lastsel", Expect: []string{"C10.same/text", "C10.noleak", "C10.end"}},
@@ -250,14 +267,15 @@ func allChecks() []*Check {
 				{Name: "C10.units", Pkg: "gtree", Entry: "VerifC10Units", N: 0, FSModel: true, RealParse: true, Expect: []string{"C10.err.units/same-unit", "C10.err.units/mixed-units"}},
 				gjf("C10.exists", "VerifC10Exists", 0, "C10.exists.simple", "C10.exists.err", "C10.exists.fs/partial"),
 			},
-			Bounds: "documents of N rows (quick 3, thorough 4) from the family: roots as list items or # headings, children indented, one optional blank/whitespace-only row at any position (also leading), one optional malformed row (no bullet, empty text, nested two levels too deep); operations text, JSON, dry-run report, walk, mkdir and verify on the file-system model; the real pipeline (splitter, 10+10+10 workers per stage, errgroup collectors) runs under a deterministic cooperative scheduler: policies FIFO and (N=2 quick, N=3 thorough) LIFO, each with first-ready or last-ready select case. Byte level: two roots whose children are indented by i and j blanks, i,j in 1..4. Pre-existing root with two roots. NOT decided: equality under every schedule (e.g. a removed spreader mutex is only seen if an explored policy interleaves two printing workers); data races.",
+			Bounds: "documents of N rows (quick 3, thorough 4) from the family: roots as list items or # headings, children indented, one optional blank/whitespace-only row at any position (also leading), one optional malformed row (no bullet, empty text, nested two levels too deep); operations text, JSON, dry-run report, walk, mkdir and verify on the file-system model; the real pipeline (splitter, 10+10+10 workers per stage, errgroup collectors) runs under a deterministic cooperative scheduler: policies FIFO and (N=2 quick, N=3 thorough) LIFO, each with first-ready or last-ready select case. Byte level: two roots whose children are indented by i and j blanks, i,j in 1..4. Pre-existing root with two roots. Worker reuse: ten concrete three-level filler roots followed by a symbolic tail of 2 (quick) / 3 (thorough) rows, because blocks are handed to the ten workers of a stage in turn and per-worker state only matters from the 11th block on. NOT decided: equality under every schedule (e.g. a removed spreader mutex is only seen if an explored policy interleaves two printing workers); data races.",
 			Assume: append([]string{parseContract, pathContract, fsModel, encStub, "goroutines, channels, select, sync.WaitGroup/Mutex, context and errgroup are engine-native with Go semantics under a run-until-block scheduler (one interpreted goroutine runs at a time); every explored schedule is a legal Go schedule, the converse is not claimed"}, commonAssume...),
 		},
 		{
 			ID:    "C11",
-			Files: files([]string{"gtree/common.go", "gtree/progtree.go"}, filesVFS, []string{"gtree/c11.go"}),
+			Files: files([]string{"gtree/common.go", "gtree/progtree.go"}, filesVFS, []string{"gtree/c11.go", "gtree/c11_native.go"}),
 			Quick: []Job{
 				gjf("C11.fail.n3", "VerifC11Fail", 3, "C11.returns/parse", "C11.returns/validate", "C11.returns/write", "C11.returns/callback", "C11.returns/fs", "C11.returns/reader", "C11.reported/parse", "C11.noleak/parse", "C11.noleak/write", "C11.noleak/fs"),
+				gjf("C11.cancel.n1", "VerifC11Cancel", 1, "C11.cancel.returns", "C11.noleak/cancel"),
 				gjf("C11.cancel.n2", "VerifC11Cancel", 2, "C11.cancel.returns", "C11.ctxerr.only", "C11.ctxerr/precancelled", "C11.cancel.never", "C11.noleak/cancel"),
 				gjf("C11.root.n3", "VerifC11Root", 3, "C11.root.returns", "C11.root.ctxerr.only", "C11.ctxerr/precancelled-root", "C11.noleak/root"),
 			},
@@ -265,6 +283,7 @@ func allChecks() []*Check {
 				gjf("C11.fail.n4", "VerifC11Fail", 4, "C11.returns/parse", "C11.returns/validate", "C11.returns/write", "C11.returns/callback", "C11.returns/fs", "C11.returns/reader", "C11.reported/parse", "C11.noleak/parse", "C11.noleak/write", "C11.noleak/fs"),
 				{Name: "C11.fail.n4.lifo", Pkg: "gtree", Entry: "VerifC11Fail", N: 4, FSModel: true, Sched: "lifo", Expect: []string{"C11.returns/parse", "C11.noleak/parse"}},
 				{Name: "C11.fail.n3.lifo-lastsel", Pkg: "gtree", Entry: "VerifC11Fail", N: 3, FSModel: true, Sched: "lifo-lastsel", Expect: []string{"C11.returns/parse", "C11.noleak/parse"}},
+				gjf("C11.cancel.n1", "VerifC11Cancel", 1, "C11.cancel.returns", "C11.noleak/cancel"),
 				gjf("C11.cancel.n3", "VerifC11Cancel", 3, "C11.cancel.returns", "C11.ctxerr.only", "C11.ctxerr/precancelled", "C11.cancel.never", "C11.noleak/cancel"),
 				{Name: "C11.cancel.n2.lifo", Pkg: "gtree", Entry: "VerifC11Cancel", N: 2, FSModel: true, Sched: "lifo", Expect: []string{"C11.cancel.returns", "C11.noleak/cancel"}},
 				{Name: "C11.cancel.n2.fifo-lastsel", Pkg: "gtree", Entry: "VerifC11Cancel", N: 2, FSModel: true, Sched: "fifo-lastsel", Expect: []string{"C11.cancel.returns", "C11.noleak/cancel"}},
